@@ -17,6 +17,7 @@ func init() {
 		notDecided: []string{"active-edge ordering (isValidAelOrder)", "intersection detection and rounding", "winding-count update arithmetic in intersectEdges/setWindCountForClosedPathEdge", "horizontal processing, joins and splits", "doSplitOp's area condition (no in-repo oracle)"},
 		rules: []func(*Ctx){
 			ruleAelJoinSplice("C01.ael.join"),
+			ruleWindingInvariant("C01.wind"),
 			ruleContribClosed("C01.table"),
 			ruleOpenGuard("C01.open-guard"),
 			ruleRing("C01.ring", 25, whyRing),
